@@ -19,7 +19,7 @@ import time
 
 HERE = os.path.dirname(os.path.abspath(__file__))
 VERIF = os.path.dirname(HERE)
-SCRATCH = '/var/tmp/kv-selftest'
+SCRATCH = '/var/tmp/kv-selftest-' + ('-'.join(sorted(sys.argv[1:])) or 'all')
 
 
 def run_one(prop, patch, expect_violation):
